@@ -6,8 +6,10 @@ from ..common import BASE_ASSUMPTIONS_L1
 
 def add_to(run):
     from contracts import namespace as c
+    from contracts import naming
     obs = []
-    for f in c.ALL:
+    done = set()
+    for f in c.ALL + naming.ALL:
         try:
             fv = f()
         except Unsupported as e:
@@ -15,10 +17,18 @@ def add_to(run):
             run.bounded_notes.append(f"{f.__name__}: outside the pyvc subset on this tree ({e}); bounded part decides")
             continue
         run.functions["amaranth_soc.memory." + fv.qualname] = f"proved ({fv.paths} paths, {len(fv.obs)} obligations)"
+        done.add(fv.qualname)
         obs += fv.obs
-    run.require("_Namespace.is_available::available-iff-no-query-is-related-to-an-assigned-name")
+    # vacuity guard: a function that WAS read must have produced its key clauses (one outside the subset is reported above)
+    req = ["_Namespace.is_available::available-iff-no-query-is-related-to-an-assigned-name",
+           "MemoryMap.add_resource[naming]::accepted-name-is-valid-and-unrelated", "MemoryMap.add_resource[naming]::refusal-has-a-reason",
+           "MemoryMap.add_window[naming]::visible-names-absorb-the-window", "MemoryMap.add_window[naming]::refusal-leaves-names-unchanged"]
+    run.require(*[r for r in req if r.split("::")[0] in done])
     run.assumptions += BASE_ASSUMPTIONS_L1 + [
         "name parts are values of an uninterpreted sort with equality; Len(name) >= 1 (MemoryMap.Name refuses empty names: bounded clause name_validation)",
         "sorted() returns a permutation of its input and `|`/set() build the union (assumed stdlib contracts)",
-        "is_available's contract requires pairwise unrelated queries (a single name, or the names of one prefix-free namespace)"]
+        "is_available's contract requires pairwise unrelated queries (a single name, or the names of one prefix-free namespace)",
+        "MemoryMap level (contracts/naming.py): the visible-name set of every map is prefix-free (established by __init__ with the empty "
+        "set, preserved by add_resource/add_window: obligations namespace-stays-prefix-free); refusals that come out of the placement "
+        "step (_compute_addr_range) are C02's business and are excluded from `refusal-has-a-reason`"]
     discharge_all(run, obs, timeout_ms=20000)
